@@ -186,9 +186,17 @@ def gen_project(rng: random.Random, profile: str, idx: int = 0) -> dict:
                 rc=[rng.choice([0, 0, 1, 77, 99])], should_fail=rng.random() < 0.25)
         S(0, 40)
     elif profile == 'maxfail-race':
-        # a failing short test while long parallel tests (some ignoring SIGTERM) are still running
-        for _ in range(rng.randint(1, 3)):
-            P(250, 400, term=rng.choice(['default', 'handle', 'ignore']))
+        # a failing short test while long parallel tests (some ignoring SIGTERM) are still running.  What is in
+        # flight when the run is cut short would end with every kind of status (not only 0): whatever is reported
+        # for it, it must not be a classification its program never earned
+        for k in range(rng.randint(1, 3)):
+            t = P(250, 400, term=rng.choice(['default', 'handle', 'ignore']),
+                  rc=[rng.choice([3, 1, 42, 99, 77, -6] if k == 0 else [0, 0, 3, 1, 99, 77, 255, -11])])
+            r = rng.random()
+            if r < 0.2:
+                t['should_fail'] = True
+            elif r < 0.35:
+                t.update(protocol='tap', tap=rng.choice(['ok,notok', 'ok', 'ok,bail']))
         add(parallel=True, dur=[rng.randint(0, 30)], rc=[1])
         for _ in range(rng.randint(1, 4)):
             (P if rng.random() < 0.7 else S)(0, 100)
